@@ -528,6 +528,27 @@ def pd_replace(prog: Program) -> RuleResult:
     return r
 
 
+def pd_init(prog: Program) -> RuleResult:
+    """A dataclass assigns its fields one by one in __init__.  Assigning a sub-property there infers into the super-property's field - which
+    may be declared later and does not exist on the instance yet.  The write-back has to cope with a backing field that is not there."""
+    from .c16 import PD as _PD
+
+    r = RuleResult("PD-INIT", "inference reaches a field that the constructor has not assigned yet", floor=1)
+    pd = prog.cls(_PD)
+    f = prog.method(pd.qual, "update_value", inherited=False)
+    if f is None:
+        raise AnalysisError("PD-INIT: PropertyDescriptor.update_value vanished")
+    reads = [c for c in calls_in(f.node) if isinstance(c.func, ast.Name) and c.func.id == "getattr" and len(c.args) >= 2 and "private_attr_name" in src(c.args[1])]
+    if not reads:
+        raise AnalysisError("PD-INIT: update_value no longer reads the backing field through getattr")
+    guarded = all(len(c.args) == 3 for c in reads) or any(isinstance(c.func, ast.Name) and c.func.id == "hasattr" for c in calls_in(f.node)) or \
+        any(isinstance(h.type, ast.Name) and h.type.id == "AttributeError" for t in walk_local(f.node) if isinstance(t, ast.Try) for h in t.handlers)
+    r.check(guarded, "PropertyDescriptor.update_value#field-not-initialised-yet", site(f, reads[0]), src(reads[0]), "a backing field that does not exist yet is handled",
+            "the backing field of the inferred relation's source is read with a two-argument getattr: Person(name='P', works_for=c) assigns works_for before member_of exists, the inferred "
+            "member_of(P, c) is written back into a field that is not there and the constructor raises AttributeError")
+    return r
+
+
 def _mc_eq(prog):
     from .c16 import mc_eq
 
@@ -535,4 +556,4 @@ def _mc_eq(prog):
 
 
 def run(prog: Program, tier: str) -> List[RuleResult]:
-    return [pd_closure(prog), pd_owner(prog), pd_supers(prog), _mc_eq(prog), pd_replace(prog), user_truth(prog, ["property_descriptor.property_descriptor", "property_descriptor.monitored_container", "property_descriptor.property_descriptor_relation"], 2)]
+    return [pd_closure(prog), pd_owner(prog), pd_supers(prog), _mc_eq(prog), pd_replace(prog), pd_init(prog), user_truth(prog, ["property_descriptor.property_descriptor", "property_descriptor.monitored_container", "property_descriptor.property_descriptor_relation"], 2)]
